@@ -306,11 +306,12 @@ impl std::hash::Hash for ScopeBinding {
 
 impl Evaluatable for ScopeBinding {
     fn type_of(&self, _ctx: ScriptContextRef) -> Result<Type, Error> {
-        self.value.type_of(self.ctx.clone())
+        // the bound expression may itself be a let-bound variable: resolve it completely
+        self.value.real_type_of(self.ctx.clone())
     }
 
-    fn value_of(&self, ctx: ScriptContextRef) -> Result<Value, Error> {
-        self.value.value_of(self.ctx.clone())?.value_of(ctx)
+    fn value_of(&self, _ctx: ScriptContextRef) -> Result<Value, Error> {
+        self.value.real_value_of(self.ctx.clone())
     }
 }
 
